@@ -85,12 +85,30 @@ class TJob(job_control.Job):
         self.runs = 0
         self.iterations = 0
         self.stop_seen_at_start = None
+        self.jc = None
+        self.unseen = []
+
+    def observe(self, when):
+        # what the controller's lock-free readers say about this job while
+        # it is executing ("reported as running ... exactly while they
+        # execute"; a queued job is the current one from its first statement
+        # to its last)
+        jc = self.jc
+        if jc is None:
+            return
+        if not jc.is_running(self.name):
+            self.unseen.append('is_running({!r}) is False at the {} of its '
+                               'body'.format(self.name, when))
+        elif not jc.has_jobs():
+            self.unseen.append('has_jobs() is False at the {} of the body of '
+                               '{!r}'.format(when, self.name))
 
     def execute(self):
         s = sched.S
         self.hist.append(('start', self.name, len(self.hist)))
         self.runs += 1
         self.stop_seen_at_start = self.stop
+        self.observe('start')
         try:
             if self.kind == 'loop':
                 n = 0
@@ -101,6 +119,7 @@ class TJob(job_control.Job):
             else:
                 for _ in range(self.length):
                     s.switch('body')
+            self.observe('end')
             if self.kind in RAISES:
                 raise RAISES[self.kind](self.name)
         finally:
@@ -199,6 +218,7 @@ def run_scenario(seed, clients, policy, depth):
                 try:
                     if kind in ('add', 'insert', 'spawn'):
                         job = TJob(op[1], hist, op[2], op[3])
+                        job.jc = jc
                         jobs[op[1]] = job
                         fn = {'add': jc.add_job, 'insert': jc.insert_job,
                               'spawn': jc.spawn_job}[kind]
@@ -333,6 +353,12 @@ def analyse(ctx, out, clients, replay):
         ctx.violation(mech + ':' + p.split(' raised ')[-1][:40]
                       if mech != 'invariant' else mech, p, replay)
         return False
+    for j in out['jobs'].values():
+        for u in j.unseen:
+            ctx.violation('executing-job-not-reported', u, replay)
+            return False
+        if j.runs:
+            ctx.count('jobs_observing_themselves')
     for te in out['thread_exc']:
         if te[1] not in ('JobFailed', 'JobKilled', 'SystemExit',
                          'KeyboardInterrupt'):
